@@ -138,6 +138,8 @@ TrEnd ==
            \* voter delegates to a validator entity; a signer without an entity needs AllowVoteWithoutEntity
            Eligible(a) == /\ (Lists(N, a) \/ Lists(G, a) \/ DelegatesTo(L, a, VV) \/ DelegatesTo(M, a, VV))
                           /\ (a \in ents \/ N.params.allow_without_entity)
+           PU == IF "pending_upgrades" \in DOMAIN N THEN SeqSet(N.pending_upgrades) ELSE {}
+           Abs(x) == IF x < 0 THEN -x ELSE x
            act == {i \in DOMAIN P : P[i].state = "active"}
            dsum == LET f(i) == P[i].deposit IN SumOver(act, f)
        IN
@@ -165,7 +167,22 @@ TrEnd ==
                   TallyOK(L, P[i], V, N.params.threshold),
               "G4: results / invalid votes / outcome of a closing proposal are not the stake-weighted tally of its votes">>,
             <<\A i \in DOMAIN P : P[i].state = "active" => ~P[i].has_results, "G4: an active proposal has results">>,
-            <<L.govdep = dsum, "G5: governance deposit pool differs from the deposits of the active proposals">>
+            <<L.govdep = dsum, "G5: governance deposit pool differs from the deposits of the active proposals">>,
+            \* G6: pending upgrades.  A pending upgrade is a passed upgrade proposal whose epoch is still ahead and that no passed
+            \* cancellation names; two pending upgrades are at least the minimum distance apart; both ways of reading them agree
+            <<\A u \in PU : /\ u.id \in DOMAIN P /\ P[u.id].kind = "upgrade" /\ P[u.id].state = "passed"
+                             /\ P[u.id].up_epoch = u.epoch /\ u.epoch > epoch,
+              "G6: a pending upgrade is not a passed upgrade proposal with its epoch still ahead">>,
+            <<\A u, w \in PU : u.id # w.id => Abs(u.epoch - w.epoch) >= N.params.upgrade_min_diff,
+              "G6: two pending upgrades closer than the minimum distance">>,
+            <<\A j \in DOMAIN P : (P[j].kind = "cancel" /\ P[j].state = "passed") => ~\E u \in PU : u.id = P[j].cancels,
+              "G6: an upgrade named by a passed cancellation is still pending">>,
+            <<\A i \in DOMAIN P : (/\ P[i].kind = "upgrade" /\ P[i].state = "passed" /\ P[i].up_epoch > epoch
+                                      /\ ~\E j \in DOMAIN P : P[j].kind = "cancel" /\ P[j].state = "passed" /\ P[j].cancels = i)
+                                     => \E u \in PU : u.id = i,
+              "G6: a passed upgrade proposal that is still ahead and not cancelled is not pending">>,
+            <<Len(N.pending_epochs) = Cardinality(PU) /\ \A u \in PU : \E k \in DOMAIN N.pending_epochs : N.pending_epochs[k] = u.epoch,
+              "G6: the pending-upgrade index differs from the upgrades found by proposal">>
           >>)
        /\ G' = N /\ M' = L /\ have' = TRUE
     /\ UNCHANGED <<epoch, newp, newv>>
